@@ -6,6 +6,36 @@ VERIF = os.path.dirname(os.path.dirname(os.path.abspath(__file__)))
 DST = 'deterministic simulation with fault injection'
 
 CHECKS = {
+    'C01': ('exploration',
+            'Restart cycles (save, forget, load) over the 52 sample files, files synthesised with populated fields for every registered block type x 13 version '
+            'configurations x seeds, and API-built BSTriShape-family models: raw F2 == F1 byte for byte, default G3 == G2.',
+            'Reach comes from the typed generator (inputs x configurations); restart is the only event, the schedule/fault dimension is degenerate. Rejected inputs are counted, not judged.',
+            DST + ': restart cycles over typed-synthesis inputs (hook-driven generator), byte-level fixed-point oracle'),
+    'C08': ('exploration',
+            'Two builds of the library (working tree and the vendored pinned tree, namespace nifly_ref) run in one simulated world and exchange files synthesised by either '
+            'build for every block type x version plus the samples; each must consume the other\'s output exactly and re-encode it to the same bytes through one encoder.',
+            'The reference is the pinned tree 32497ec + hooks; inputs on which the reference is not self-consistent are skipped and counted.',
+            DST + ': mixed-version world (two library builds exchanging files), stage-marked runs, canonical re-encoding oracle'),
+    'C11': ('exploration',
+            'Two or three actors own copies of one model (copy-construct, assign over an empty or loaded model, copy of a copy); a seeded interleaving of edit steps on one '
+            'with observations of the others, then destruction in either order followed by further use of the survivor, under ASan.',
+            'Edits are NifFile-level API calls; observations are raw saves taken twice (self-stabilising) plus geometry queries through shapes.',
+            DST + ': seeded interleaving of actors on copied models incl. destruction order, byte/observation oracle under ASan'),
+    'C12': ('exploration',
+            'Histories load|build (LE or SE) -> OptimizeFor(options) -> restart -> OptimizeFor(back) -> restart with a mesh model captured before: positions bit-exact, triangle '
+            'multiset, UV/colour within storage precision, bone list, top-4 renormalised weights, shader/parents, distinct sibling names, partition invariants.',
+            'Tolerances come from the code\'s own packing; normals/tangents are not compared for model-space shaders.',
+            DST + ': conversion histories with restarts against an executable mesh model and quantisation table'),
+    'C13': ('exploration',
+            'Histories Create -> CreateShapeFromData -> setters/getters -> restart per version OB/FO3/SK/SSE/FO4/FO76 on random meshes incl. the 1 and 65535 limits, against '
+            'the mesh model and the quantisation table.',
+            'Setters get matching sizes; documented side effects are in the model.',
+            DST + ': create/set/get histories with restarts against an executable mesh model and quantisation table'),
+    'C14': ('exploration',
+            'Actors S (source) and D (destination: same model, fresh model, other loaded model of the same game): repeated CloneShape interleaved with observations of S, restart of D, '
+            'destruction of S before further use of D.',
+            'Graph comparisons are up to block renumbering.',
+            DST + ': seeded interleaving of source/destination actors incl. destruction order and restart, content-equality oracle under ASan'),
     'C02': ('exploration',
             'Seeded histories load|build -> edits -> save -> queries -> save -> save on one live model (raw and default options) compare the bytes of '
             'consecutive saves (after canonical string-table renumbering) and the query-battery digest around every save; a fault configuration fails the '
